@@ -27,6 +27,52 @@ PROPS["C05"] = {
     "level_note": "Trusted: Lean kernel, float->Int embedding, harness/driver. The last sentence of the property (reported members' values are the model's values at that action set) is decided by the suppa-runs suite with C01/C09, not by an archive theorem.",
 }
 
+_CATCHMENT_RULE = ("catchment-walk: the real CoreModel on the shipped datasets (ValidModel n=13, TestingModel n=15) and on generated datasets "
+    "(1-8 planning units, random presence of each action type, vegetation proportions straddling the 0.25/0.75 thresholds, zero rows) loaded by the real CSV loader; "
+    "scenario data D (sorted actions with all ModelVariableValue constants, initial attribute records of sediment/PN/DN) is extracted from the running Go model and sent to the Lean model; "
+    "conformant random walks over propose/accept/revert (TryRandomChange with a scripted rand.Source, or ToggleAction by key), SetManagementAction, SynchroniseTo / Decompress-style whole-set loads, "
+    "Initialise(AsIs|Random|Unchanged), Randomize() with scripted draws, with no limit and with a limit on each of the six variables placed strictly between attainable values; "
+    "thorough tier additionally walks ALL 2^13 active sets of the shipped dataset in Gray-code order and in every state proposes+reverts every single action. "
+    "After every operation the complete state is compared with the model: action flags, six totals, six values per planning unit (at reporting precision), the hidden attribute records of the three pollutant variables (relative 1e-9), "
+    "reported changes, validity verdict and quoted value. One evaluation = one protocol line. distinct = distinct (dataset, limit, active set, action proposed); non-trivial = the proposal moved at least one variable or the verdict was negative. "
+    "Lines whose evaluation passes within 1e-9 of a rounding boundary are discarded (BOUNDARY) and counted.")
+_CATCHMENT_TRUSTED = [
+    "IEEE-754 float arithmetic of the Go code is abstracted to exact rationals (DESIGN 3.1): model and Go are compared at reporting precision; error accumulation over unboundedly long histories is sampled, not proved",
+    "how crem derives action constants and initial attributes from CSV tables is outside the model: the theorems assume InitConsistent (decidable; evaluated by the driver on every extracted dataset, after normalising float noise <= 1e-12 relative) and KeysDistinct",
+]
+PROPS["C01"] = {
+    "suites": [{"name": "catchment-walk", "driver": "catchment", "shards": 12, "quick_shards": 4}],
+    "rule": _CATCHMENT_RULE + " C01 is additionally evaluated directly: every visited state is compared with a freshly initialised model instance to which exactly that active set is applied.",
+    "trusted": _CATCHMENT_TRUSTED,
+    "assumptions": ["histories are conformant (every proposal is accepted or reverted before the next mutating operation), as every caller in crem is"],
+    "level_text": "Unbounded proof over an exact-rational executable model of the six decision variables: for every dataset satisfying the decidable hypotheses and EVERY conformant operation history, the state is the canonical state of its active set (induction over the history with one lemma per transaction), hence two histories ending in the same set agree on every observable. The model is tied to the Go code on every run by a differential walk that compares the full (including hidden) state after every operation.",
+    "level_note": "Trusted: Lean kernel; exact-rational abstraction of float arithmetic; InitConsistent/KeysDistinct evaluated (not proved) per dataset; harness and driver.",
+}
+PROPS["C02"] = {
+    "suites": [{"name": "catchment-walk", "driver": "catchment", "shards": 12, "quick_shards": 4}],
+    "rule": _CATCHMENT_RULE + " C02 is additionally evaluated directly on every transaction: values unchanged while proposed (bit-exact), revert restores every observable bit-exactly, accept moves each variable by the reported change, other planning units untouched.",
+    "trusted": _CATCHMENT_TRUSTED,
+    "assumptions": ["conformant histories"],
+    "level_text": "Unbounded proof: for every canonical state and every action, proposing leaves all values unchanged, reverting restores every observable exactly, accepting moves each variable by exactly the reported change, and only the action's own planning unit changes; lifted to all reachable states by C01's induction. Tied to the Go code by the differential walk.",
+    "level_note": "As C01.",
+}
+PROPS["C10"] = {
+    "suites": [{"name": "catchment-walk", "driver": "catchment", "shards": 12, "quick_shards": 4}],
+    "rule": _CATCHMENT_RULE + " C10 is additionally evaluated directly on every proposal made under a limit: the verdict must equal (pre-value + reported change <= limit) and the quoted value must be that prospective value.",
+    "trusted": _CATCHMENT_TRUSTED,
+    "assumptions": ["exactly one variable is limited (the model rejects more than one)"],
+    "level_text": "Unbounded proof: in every canonical state, for every action and every limit, ChangeIsValid is true iff every bounded variable's value after acceptance is within its maximum, and the quoted value is that prospective value; corollary: a lowering change is never rejected. Tied to the Go code by the differential walk with limits placed strictly between attainable values.",
+    "level_note": "As C01.",
+}
+PROPS["C11"] = {
+    "suites": [{"name": "catchment-walk", "driver": "catchment", "shards": 12, "quick_shards": 4}],
+    "rule": _CATCHMENT_RULE + " C11 is additionally evaluated directly in every visited state: each total equals the sum of the planning-unit values, TN = PN + DN for the catchment and per unit.",
+    "trusted": _CATCHMENT_TRUSTED,
+    "assumptions": [],
+    "level_text": "Unbounded proof from the canonical-state invariant: in every reachable state of every dataset each total equals the sum of its planning-unit values and total nitrogen equals particulate plus dissolved nitrogen per unit and for the catchment (exact in the rational model). Tied to the Go code by the differential walk; figures in solution files and engine responses are re-summed by the saved-runs / engine suites.",
+    "level_note": "As C01.",
+}
+
 # properties not (yet) claimed, with the reason; kept current as checks are added
 NOT_APPLICABLE = {
 }
